@@ -95,9 +95,14 @@ class FaultConnection(sqlite3.Connection):
             STATE['in_exit'] = False
 
 
+_OPEN = []
+
+
 def _patched_connect(*args, **kwargs):
     kwargs.setdefault('factory', FaultConnection)
-    return REAL_CONNECT(*args, **kwargs)
+    connection = REAL_CONNECT(*args, **kwargs)
+    _OPEN.append(connection)
+    return connection
 
 
 def attempt(argv, at=None, mode='raise', want_labels=False):
@@ -131,6 +136,15 @@ def attempt(argv, at=None, mode='raise', want_labels=False):
     finally:
         sqlite3.connect = REAL_CONNECT
         STATE['at'] = None
+        # the command's process ends here: its connections go away with it
+        # (an open transaction is rolled back).  Without this a connection
+        # kept alive by the traceback of the injected error holds its write
+        # lock until the collector runs, and a re-run finds the file locked
+        while _OPEN:
+            try:
+                _OPEN.pop().close()
+            except sqlite3.Error:
+                pass
         STATE['attempts'] = STATE.get('attempts', 0) + 1
         if STATE['attempts'] % 500 == 0:
             gc.collect()
